@@ -5,6 +5,7 @@ import Proofs.FrameWalk
 import Proofs.FrameBack
 import Proofs.FrameTeam
 import Proofs.FrameTeamBack
+import Proofs.FrameAlt
 import Proofs.WFCheck
 /-!
 C06 — reported start and end frame exactly the booked work.
@@ -124,5 +125,21 @@ theorem team_framed_elab (p : RawProj) (h : wfCheck (elaborate p).env = true) (t
     (hs : ((runScenario (elaborate p).env).tst t).scheduled = true) :
     Framed (elaborate p).env (runScenario (elaborate p).env) t r :=
   team_framed _ (wfCheck_sound _ h) t sel η hel r hr hs
+
+/-! ### tasks with an alternative (both modes) -/
+
+/-- **C06 with an alternative** (`Proofs/FrameAlt`): after scheduling ANY well-formed project, every effort task with one
+    primary and one alternative resource that is reported as scheduled is framed on ONE of the two — the one
+    `_selectBestResources` chose at its first slot (by `C03.bookings_on_one_candidate_set` it holds nothing on the other):
+    first and last booked slot, every booking between them, the reported start inside the first, the reported end inside
+    the last. -/
+theorem framed_with_alternative (e : Env) (wf : WF e) (t r1 r2 : Nat) (hel : EligAlt e t r1 r2)
+    (hs : ((runScenario e).tst t).scheduled = true) :
+    ∃ r, (r = r1 ∨ r = r2) ∧ ∃ fb last : Int, fb ≤ last ∧
+      usageOf ((runScenario e).led.get r fb).usage t ≠ none ∧ usageOf ((runScenario e).led.get r last).usage t ≠ none ∧
+      (∀ i, usageOf ((runScenario e).led.get r i).usage t ≠ none → fb ≤ i ∧ i ≤ last) ∧
+      (∃ v, ((runScenario e).tst t).start = some v ∧ e.time fb ≤ v ∧ v ≤ e.time (fb + 1)) ∧
+      (∃ v, ((runScenario e).tst t).stop = some v ∧ e.time last ≤ v ∧ v ≤ e.time (last + 1)) :=
+  runScenario_framed_alt e wf t r1 r2 hel (runScenario_scheduled_done e t ⟨hel.leaf, hel.effort, hel.nomile⟩ hs)
 
 end SP.C06
